@@ -6,6 +6,8 @@ import (
 	"go/types"
 	"sort"
 	"strings"
+
+	"golang.org/x/tools/go/ssa"
 )
 
 func init() { register("C13", checkC13) }
@@ -30,7 +32,7 @@ func checkC13(c *Ctx) {
 		"EOF gives a syntax error; (C13.escape) the backtick machine's step table is extracted and its complete configuration space (state x hex count x buffer) is explored exhaustively: " +
 		"exactly `CR` `LF` `CRLF` `TAB` `SP` `BK` and `U+`H{1,8} decode, a lone quote between backticks denotes itself only directly after the opening backtick, every other text is kept verbatim " +
 		"(the consumed characters are returned unchanged); (C13.codepoint) a U+hex escape is decoded only under err == nil && utf8.ValidRune. " +
-		"NOT decided: the round trip encode∘decode = id itself (needs an encoder model), line bookkeeping (C18)."
+		"(C13.verbatim) from the string token to the text value the characters are handed over unchanged (conversions only) at each of the five hand-over points; (C13.fresh = C07.fresh) a literal yields a new text on every evaluation. NOT decided: the round trip encode∘decode = id itself (needs an encoder model), line bookkeeping (C18)."
 	R.Assumptions = []string{
 		"Lexer.Next/Peek/Peek2/GetCurrentChar return the characters at cursor+1 (after moving) / +1 / +2 / +0",
 		"strconv.ParseInt and utf8.ValidRune behave as documented",
@@ -39,6 +41,116 @@ func checkC13(c *Ctx) {
 	p := u.Pkgs["pkg/syntax/zh"]
 	info := p.TypesInfo
 	typeConsts := constsWithPrefix(p, "Type")
+
+	// ---- C13.verbatim: between the string token and the text value the characters pass through unchanged
+	// (conversions only - no slicing, trimming or rebuilding at any hand-over)
+	u.buildSSA()
+	verbatim := func(v ssa.Value, origin func(ssa.Value) bool) bool {
+		okAll := true
+		seen := map[ssa.Value]bool{}
+		var walk func(v ssa.Value)
+		walk = func(v ssa.Value) {
+			if seen[v] || !okAll {
+				return
+			}
+			seen[v] = true
+			if origin(v) {
+				return
+			}
+			switch x := v.(type) {
+			case *ssa.Convert:
+				walk(x.X)
+			case *ssa.ChangeType:
+				walk(x.X)
+			case *ssa.Phi:
+				for _, e := range x.Edges {
+					walk(e)
+				}
+			default:
+				okAll = false
+			}
+		}
+		walk(v)
+		return okAll
+	}
+	type hop struct {
+		rel, fn, what string
+		check         func(f *ssa.Function) bool
+	}
+	hops := []hop{
+		{"pkg/syntax/zh", "newString", "the token's Literal is handed to SetLiteral as it is", func(f *ssa.Function) bool {
+			calls := u.callsNamed(f, "pkg/syntax.PrimeExpr.SetLiteral")
+			if len(calls) != 1 {
+				return false
+			}
+			args := calls[0].Common().Args
+			return verbatim(args[len(args)-1], func(v ssa.Value) bool { _, ok := fieldLoad(v, "Literal"); return ok })
+		}},
+		{"pkg/syntax", "PrimeExpr.SetLiteral", "stores string(literal)", func(f *ssa.Function) bool {
+			n := 0
+			for _, in := range instrsOf(f) {
+				if st, ok := in.(*ssa.Store); ok {
+					if fa, ok := st.Addr.(*ssa.FieldAddr); ok && fieldAddrName(fa) == "PrimeExpr.Literal" {
+						n++
+						if !verbatim(st.Val, func(v ssa.Value) bool { return v == ssa.Value(f.Params[1]) }) {
+							return false
+						}
+					}
+				}
+			}
+			return n == 1
+		}},
+		{"pkg/syntax", "PrimeExpr.GetLiteral", "returns the stored text", func(f *ssa.Function) bool {
+			for _, b := range f.Blocks {
+				if ret, ok := b.Instrs[len(b.Instrs)-1].(*ssa.Return); ok {
+					if !verbatim(ret.Results[0], func(v ssa.Value) bool { _, ok := fieldLoad(v, "Literal"); return ok }) {
+						return false
+					}
+				}
+			}
+			return true
+		}},
+		{"pkg/exec", "evalPrimeExpr", "the text value is built from GetLiteral() as it is", func(f *ssa.Function) bool {
+			n := 0
+			for _, cs := range u.callsNamed(f, "pkg/value.NewString") {
+				n++
+				if !verbatim(cs.Common().Args[0], func(v ssa.Value) bool {
+					call, ok := v.(*ssa.Call)
+					return ok && u.callName(call) == "pkg/syntax.PrimeExpr.GetLiteral"
+				}) {
+					return false
+				}
+			}
+			return n >= 1
+		}},
+		{"pkg/value", "NewString", "stores its argument", func(f *ssa.Function) bool {
+			n := 0
+			for _, in := range instrsOf(f) {
+				if st, ok := in.(*ssa.Store); ok {
+					if fa, ok := st.Addr.(*ssa.FieldAddr); ok && fieldAddrName(fa) == "String.value" {
+						n++
+						if !verbatim(st.Val, func(v ssa.Value) bool { return v == ssa.Value(f.Params[0]) }) {
+							return false
+						}
+					}
+				}
+			}
+			return n == 1
+		}},
+	}
+	for _, h := range hops {
+		f := u.ssaFunc(h.rel, h.fn)
+		if f == nil {
+			R.lost("C13.verbatim", h.rel+"."+h.fn)
+			continue
+		}
+		R.check(h.check(f), "C13.verbatim", h.rel+"."+h.fn, u.pos(f.Pos()), h.what, "the literal's characters are altered on the way from the token to the text value (expected: "+h.what+")")
+	}
+	R.min("C13.verbatim", 5)
+
+	// a literal yields a new text on every evaluation (texts are rewritten in place by 转换数值: a pooled literal
+	// would read back altered the next time)
+	borrowRule(c, "C07", "C07.fresh", "C13.fresh")
 
 	// ---- C13.quotes: tables
 	pe0 := newPE(u, info, nil)
